@@ -260,6 +260,25 @@ def directed():
                 e = safe(c, pw)
                 if e is not None:
                     out.append(e)
+    # symbolic exponents whose leading coefficient is negative -- all-negative sums, products with them, scaled parameters -- in
+    # products and quotients: _print_Mul decides syntactically (leading coefficient) which powers go to the denominator and
+    # negates their exponent, _print_Pow decides on its own how to print a power
+    sexps = [safe(lambda: -x - Rational(1, 2)), safe(lambda: x * (-x - Rational(1, 2))), safe(lambda: -a0 ** 2 - 1), safe(lambda: -2 * a0),
+             safe(lambda: -a0 / 2), safe(lambda: -2 * x), safe(lambda: (-x - 1) * x), safe(lambda: -x * a1), safe(lambda: -a1 - x),
+             safe(lambda: -(a0 ** 2) * x), safe(lambda: Rational(-3, 2) * a1)]
+    sctx = [lambda p: p, lambda p: a0 * p, lambda p: a0 / p, lambda p: p * x, lambda p: p / a1, lambda p: x + p, lambda p: sin(p),
+            lambda p: a1 * p * x, lambda p: 2 * p, lambda p: p / (x + 1)]
+    for b in [x, a0, x + 1, Abs(a0, evaluate=False)]:
+        for ex in sexps:
+            if ex is None:
+                continue
+            pw = safe(lambda: Pow(b, ex))
+            if pw is None:
+                continue
+            for c in sctx:
+                e = safe(c, pw)
+                if e is not None:
+                    out.append(e)
     # inv / cube / square compositions as ESR's operator set writes them
     for b in bases[:7]:
         for e in (safe(lambda: 1 / (b * b * b)), safe(lambda: x + 1 / (b * b * b)), safe(lambda: sin(1 / (b * b * b))),
